@@ -450,7 +450,9 @@ int read_fasta( struct in_buffer* b,struct msa** m)
 
                 }else{
                         for(i = 0;i < line_len;i++){
-                                msa->letter_freq[(int)line[i]]++;
+                                if(line[i] >= 0){
+                                        msa->letter_freq[(int)line[i]]++;
+                                }
                                 if(isalpha((int)line[i])){
                                         if(!seq_ptr){
                                                 ERROR_MSG("Encountered a sequence before encountering it's name");
@@ -533,7 +535,9 @@ int read_clu(struct in_buffer* b , struct msa** m)
                                 }
                                 seq_ptr->name[j] = 0;
                                 for(i = j;i < line_len;i++){
-                                        msa->letter_freq[(int)p[i]]++;
+                                        if(p[i] >= 0){
+                                                msa->letter_freq[(int)p[i]]++;
+                                        }
                                         if(isalpha((int)p[i])){
                                                 seq_ptr->seq[seq_ptr->len] = p[i];
                                                 seq_ptr->len++;
@@ -630,7 +634,9 @@ int read_msf(struct in_buffer* b,struct msa** m)
                                 j = strnlen(seq_ptr->name, MSA_NAME_LEN);
                                 p += j;
                                 for(i = 0;i < line_len-j;i++){
-                                        msa->letter_freq[(int)p[i]]++;
+                                        if(p[i] >= 0){
+                                                msa->letter_freq[(int)p[i]]++;
+                                        }
                                         if(isalpha((int)p[i])){
 
                                                 seq_ptr->seq[seq_ptr->len] = p[i];
